@@ -446,7 +446,7 @@ class PitRun:
             ex = deliver(self.sess, self.face, w, timers_now=False, before_run=lambda: self.cancel_in_flight(ev.get('x', [])))
             if ex is not None:
                 self.bg.append('receive:' + type(ex).__name__)
-        elif a == 'RecvNack':
+        elif a in ('RecvNack', 'RecvNackFire'):
             t = ev['t']
             ipar = enc.InterestParam(can_be_prefix=bool(t['cbp']), lifetime=t['life'] * TICK_MS, nonce=0x01020304)
             if t['name'] and t['name'][-1] == 'P':
@@ -458,7 +458,11 @@ class PitRun:
             # reason code 0 in a plain LP envelope is sent as a Nack header *without* NackReason (NDNLPv2: absent = 0)
             w = lp_wrap(iw, nack_reason=('absent' if (reason == 0 and ev['env'] == 'lp') else reason),
                         extra=(ev['env'] == 'lph'), odd=(ev['env'] == 'lpo'), empty_nack=(reason == 0 and ev['env'] == 'lp'))
-            ex = deliver(self.sess, self.face, w, timers_now=False, before_run=lambda: self.cancel_in_flight(ev.get('x', [])))
+            if a == 'RecvNackFire':
+                # the Nack is handed over in the loop iteration in which the due lifetime timers run (NdnPit!RecvNackFire)
+                ex = deliver(self.sess, self.face, w, timers_now=True)
+            else:
+                ex = deliver(self.sess, self.face, w, timers_now=False, before_run=lambda: self.cancel_in_flight(ev.get('x', [])))
             if ex is not None:
                 self.bg.append('receive:' + type(ex).__name__)
         elif a == 'RecvJunk':
